@@ -83,14 +83,50 @@ func ExpandHome(pattern string) string {
 const (
 	maxGlobBraceGroups   = 4
 	maxGlobDoubleStars   = 3
-	globTooComplexFormat = "include pattern too complex (more than %d brace groups or %d \"**\" segments): %s"
+	maxGlobAlternatives  = 64
+	globTooComplexFormat = "include pattern too complex (more than %d brace groups, %d combinations of their alternatives or %d \"**\" segments): %s"
 )
 
-// CheckGlobComplexity refuses patterns that are too expensive to expand.
+// CheckGlobComplexity refuses patterns that are too expensive to expand:
+// every combination of brace alternatives is a pattern of its own, and every
+// "**" walks a directory tree.
 func CheckGlobComplexity(pattern string) error {
 	pattern = ConvertHledgerGlob(pattern)
-	if strings.Count(pattern, "{") > maxGlobBraceGroups || strings.Count(pattern, "**") > maxGlobDoubleStars {
-		return fmt.Errorf(globTooComplexFormat, maxGlobBraceGroups, maxGlobDoubleStars, pattern)
+	if strings.Count(pattern, "{") > maxGlobBraceGroups || strings.Count(pattern, "**") > maxGlobDoubleStars || braceCombinations(pattern) > maxGlobAlternatives {
+		if len(pattern) > 200 {
+			pattern = pattern[:200] + "..."
+		}
+		return fmt.Errorf(globTooComplexFormat, maxGlobBraceGroups, maxGlobAlternatives, maxGlobDoubleStars, pattern)
 	}
 	return nil
+}
+
+// braceCombinations multiplies the numbers of alternatives of the brace
+// groups of a pattern (nested groups count with the group around them). The
+// product stops growing once it is beyond any bound of interest.
+func braceCombinations(pattern string) int {
+	product, depth, alternatives := 1, 0, 0
+	for i := 0; i < len(pattern); i++ {
+		switch pattern[i] {
+		case '\\':
+			i++
+		case '{':
+			if depth == 0 {
+				alternatives = 1
+			}
+			depth++
+		case ',':
+			if depth > 0 {
+				alternatives++
+			}
+		case '}':
+			if depth > 0 {
+				depth--
+				if depth == 0 && product <= maxGlobAlternatives {
+					product *= alternatives
+				}
+			}
+		}
+	}
+	return product
 }
